@@ -28,10 +28,11 @@ Fld(name, bad) == [name |-> name, style |-> "field", bad |-> bad, fs |-> <<>>, d
 FieldLists(style, n) ==
   {[i \in 1..n |-> Fld(IF style = "named" THEN FieldNames[i] ELSE "", b[i])] : b \in [1..n -> BOOLEAN]}
 
+\* variants of every style, with or without an explicit discriminant, braced / parenthesised ones also with no field at all
 VariantsOf(j) ==
   {[name |-> VarNames[j], style |-> "unit", bad |-> b, fs |-> <<>>, disc |-> d] : b, d \in BOOLEAN}
-  \cup UNION {{[name |-> VarNames[j], style |-> st, bad |-> b, fs |-> fl, disc |-> FALSE] : b \in BOOLEAN, fl \in FieldLists(st, n)}
-              : st \in {"named", "tuple"}, n \in 1..MaxVFields}
+  \cup UNION {{[name |-> VarNames[j], style |-> st, bad |-> b, fs |-> fl, disc |-> d] : b \in BOOLEAN, fl \in FieldLists(st, n), d \in (IF n = 1 THEN BOOLEAN ELSE {FALSE})}
+              : st \in {"named", "tuple"}, n \in 0..MaxVFields}
 
 RECURSIVE VariantSeqs(_)
 VariantSeqs(n) == IF n = 0 THEN {<<>>} ELSE {Append(p, v) : p \in VariantSeqs(n - 1), v \in VariantsOf(n)}
